@@ -147,6 +147,17 @@ def run(rep, br, proofs, rng, tier):
               "try { throw \"e\" } catch string { return typeName(string) }\n",
               "a := 0.0\nb := -0.0\nreturn string(b)\n"]
     progs += literal_condition_progs(lits)
+    # const groups with an implicitly repeated expression: the repeats are compiled from the expression of the first
+    # specification.  D01e (known finding): when the group itself declares a name that expression mentions, the
+    # optimizer has already rewritten the shared expression with the binding the first specification saw.
+    D01E = ["const x = 2\nf := func() {\n\tconst (\n\t\ta = x + iota\n\t\tx\n\t\tc\n\t)\n\treturn [a, x, c]\n}\nreturn f()\n",
+            "f := func() {\n\tconst (\n\t\ta = len(\"ab\")\n\t\tlen\n\t\tc\n\t)\n\treturn [a, len, c]\n}\nreturn f()\n"]
+    progs += D01E
+    progs += ["const x = 2\nconst (\n\ta = x + iota\n\ty\n\tc\n)\nreturn [a, y, c]\n",
+              "f := func() {\n\tconst (\n\t\ta = len(\"ab\") + iota\n\t\tb\n\t\tc\n\t)\n\treturn [a, b, c]\n}\nreturn f()\n",
+              "const x = 2\nf := func(x) {\n\tconst (\n\t\ta = x * iota\n\t\tb\n\t\tc\n\t)\n\treturn [a, b, c]\n}\nreturn f(5)\n",
+              "len := 3\nconst (\n\ta = len + iota\n\tb\n)\nreturn [a, b]\n"]
+    known = {k["id"] for k in vlib.load_known("C01")}
     pcases = [mk_case("p%d" % i, "optprog", hexs(s.encode()), ["limits"] + [str(x) for x in LIMITS], *[hexs(m.encode()) for m in MODS]) for i, s in enumerate(progs)]
     impl_p, _ = vlib.run_impl([c["line"] for c in pcases], timeout=3000)
     compared = refused = 0
@@ -167,6 +178,10 @@ def run(rep, br, proofs, rng, tier):
                 refused += 1; continue
             if res[0] == "compile-error":
                 fails.append((c, "valid script rejected with OptimizerLimit %s: %s" % (lim, res[1][:200]), s)); break
+            if vlib.sexp_str(res) != basestr and s in D01E and "D01e" in known:
+                rep.known("D01e", "a const group whose implicitly repeated expression mentions a name the group itself declares: %s gives %s with the optimizer off and %s with it on" % (
+                    " ".join(s.split())[:90], basestr[:60], vlib.sexp_str(res)[:60]))
+                break
             if vlib.sexp_str(res) != basestr:
                 fails.append((c, "OptimizerLimit %s changes the outcome: off %s, on %s" % (lim, basestr[:300], vlib.sexp_str(res)[:300]), s)); break
             compared += 1
